@@ -7,7 +7,6 @@ import (
 	"testing"
 
 	"github.com/google/gce-tcb-verifier/eventlog"
-	oabi "github.com/google/gce-tcb-verifier/ovmf/abi"
 	"github.com/google/uuid"
 	"pgregory.net/rapid"
 
@@ -37,7 +36,7 @@ type codec struct {
 }
 
 func (c *codec) rule() {
-	ev.Rule(c.name, c.what+"; values drawn inside the ABI range (boundary-biased lengths and integers); oracle (i) decode(encode(v)) == v through bytes.Buffer, bytes.Reader and iotest.OneByteReader with exactly len(encoding) bytes consumed, (ii) encode(v) == harness reference encoding written from the TCG PFP tables, (iv) for byte strings near a valid encoding (truncated at a field boundary or anywhere, extended, size/count/alg fields changed by small amounts, single byte set; sizes capped at 2^15 because allocation behaviour is C07's): accepted => re-encoding equals the consumed bytes up to SP800-155 zero padding, and all three readers give the same verdict and value; non-trivial = value has a field at a range boundary or the byte string is an edit of a valid encoding; distinct = (edit class, field, verdict)")
+	ev.Rule(c.name, c.what+"; values drawn inside the ABI range (boundary-biased lengths and integers); oracle (i) decode(encode(v)) == v through bytes.Buffer, bytes.Reader, iotest.OneByteReader, iotest.HalfReader and iotest.DataErrReader (final bytes delivered together with io.EOF) with exactly len(encoding) bytes consumed (not observable for DataErrReader, which reads ahead); lengths and counts include the mid range (strings 13..252, arrays 25..254 and 301..20000 bytes, 5..40 digests/events), (ii) encode(v) == harness reference encoding written from the TCG PFP tables, (iv) for byte strings near a valid encoding (truncated at a field boundary or anywhere, extended, size/count/alg fields changed by small amounts, single byte set; sizes capped at 2^15 because allocation behaviour is C07's): accepted => re-encoding equals the consumed bytes up to SP800-155 zero padding, and all five readers give the same verdict and value; non-trivial = value has a field at a range boundary or the byte string is an edit of a valid encoding; distinct = (edit class, field, verdict)")
 }
 
 type decoded struct {
@@ -90,7 +89,7 @@ func (c *codec) checkValue(t ev.TB, m any, nilForm bool) (*renc, bool) {
 		case !modelEqual(d.m, m):
 			ev.Violation(t, key, "%s via %s: encoding %s of %+v decodes to %+v", c.name, k, hx(e.b), m, d.m)
 			return e, false
-		case d.consumed != len(e.b):
+		case d.consumed >= 0 && d.consumed != len(e.b):
 			ev.Violation(t, key, "%s via %s: decoder consumed %d of %d bytes", c.name, k, d.consumed, len(e.b))
 			return e, false
 		}
@@ -153,7 +152,7 @@ func (c *codec) checkBytes(t ev.TB, b []byte) (string, bool) {
 			ev.Violation(t, "C18/decode-panic/"+c.name, "%s via %s: decoding %s panicked: %v", c.name, k, hx(b), d.pan)
 			return "", false
 		}
-		if (d.err == nil) != (d0.err == nil) || (d.err == nil && (!modelEqual(d.m, d0.m) || d.consumed != d0.consumed)) {
+		if (d.err == nil) != (d0.err == nil) || (d.err == nil && (!modelEqual(d.m, d0.m) || (d.consumed >= 0 && d.consumed != d0.consumed))) {
 			ev.Violation(t, c.readerKey, "%s: the same %d bytes %s give (err=%v, consumed=%d, value=%+v) through bytes.Buffer but (err=%v, consumed=%d, value=%+v) through %s; both are legal io.Readers", c.name, len(b), hx(b), d0.err, d0.consumed, d0.m, d.err, d.consumed, d.m, k)
 			return "", false
 		}
@@ -200,7 +199,12 @@ func mutate(t *rapid.T, e *renc) (string, string, []byte) {
 			return "truncate-any", "", b[:rapid.IntRange(0, len(b)-1).Draw(t, "k")]
 		}
 	case 3:
-		n := rapid.IntRange(1, 12).Draw(t, "m")
+		// up to 40 bytes: 16 zero bytes are a complete empty TCG_PCR_EVENT2, so a log can be extended
+		// by a whole event as well as by a partial one
+		n := rapid.IntRange(1, 40).Draw(t, "m")
+		if rapid.IntRange(0, 3).Draw(t, "m16") == 0 {
+			n = rapid.SampledFrom([]int{15, 16, 17, 32}).Draw(t, "mev")
+		}
 		ext := make([]byte, n)
 		mode := rapid.SampledFrom([]string{"zero", "ff", "random"}).Draw(t, "extmode")
 		for i := range ext {
@@ -242,7 +246,9 @@ func mutate(t *rapid.T, e *renc) (string, string, []byte) {
 		b[rapid.IntRange(s.lo, s.hi-1).Draw(t, "pos")] = byte(rapid.IntRange(0, 255).Draw(t, "x"))
 		return "setbyte", s.name, b
 	}
-	return "identity", "", b
+	// nothing to edit in place (e.g. an empty array is its size field only): extend instead
+	n := rapid.IntRange(1, 12).Draw(t, "fallback_m")
+	return "extend-ff", fmt.Sprint(n), append(b, bytes.Repeat([]byte{0xff}, n)...)
 }
 
 func runCodec(t *testing.T, c *codec, n int) {
@@ -500,7 +506,7 @@ func checkSPBytes(t ev.TB, body []byte) (string, bool) {
 
 func TestElSP800155(t *testing.T) {
 	const name = "el/sp800155"
-	ev.Rule(name, "SP800-155 Event3 values (strings of length {0,1,253,254,0..12} incl. embedded NULs, locators of 0/1/0..24/255..300 bytes, integers boundary-biased); oracle: MarshalToBytes == signature + harness PFP layout; UnmarshalFromBytes(body) == v; body + 1..9 zero bytes == v (documented HOB padding); body + padding with one non-zero byte refused; byte strings: truncate at every field boundary and anywhere, change each size field, set a byte => accepted implies body == encode(decode(body)) followed only by zeros (a size-prefixed field that claims more than remains must be refused); out of range: a string of 255..300 bytes or a total above MaxGUIDHOBDataSize refused by MarshalToBytes; non-trivial = boundary value or edited string; distinct = (edit, field, verdict)")
+	ev.Rule(name, "SP800-155 Event3 values (strings of length {0,1,253,254,0..12} incl. embedded NULs, locators of 0/1/0..24/255..300 bytes, integers boundary-biased); oracle: MarshalToBytes == signature + harness PFP layout; UnmarshalFromBytes(body) == v; body + 1..7 zero bytes == v (documented HOB padding to a multiple of 8; 8..9 zero bytes may be refused by a stricter decoder but if accepted must give v); body + padding with one non-zero byte refused; byte strings: truncate at every field boundary and anywhere, change each size field, set a byte => accepted implies body == encode(decode(body)) followed only by zeros (a size-prefixed field that claims more than remains must be refused); out of range: a string of 255..300 bytes or a total above MaxGUIDHOBDataSize refused by MarshalToBytes; non-trivial = boundary value or edited string; distinct = (edit, field, verdict)")
 	checks(ev.Scale(4000, 20000))
 	rapid.Check(t, func(t *rapid.T) {
 		sp, boundary := genSP(t)
@@ -520,6 +526,12 @@ func TestElSP800155(t *testing.T) {
 		var v eventlog.SP800155Event3
 		body := append(append([]byte(nil), e.b...), make([]byte, pad)...)
 		err, pan = call(func() error { return v.UnmarshalFromBytes(body) })
+		if pan == nil && err != nil && pad >= 8 {
+			// the documented padding rounds a HOB payload up to 8 bytes, i.e. at most 7 zero bytes; a
+			// decoder that refuses more than that is a legal stricter one
+			ev.Case(name, true, fmt.Sprintf("value/pad=%d/refused", pad), "value/pad>=8/refused-strict", nil)
+			return
+		}
 		if err != nil || pan != nil {
 			ev.Violation(t, "C18/valid-encoding-refused/el/sp800155", "encoding + %d zero bytes refused: err=%v panic=%v", pad, err, pan)
 			return
@@ -555,7 +567,7 @@ func TestElSP800155(t *testing.T) {
 // Values outside the ABI range must be refused by the encoders.
 func TestElOutOfRange(t *testing.T) {
 	const name = "el/out-of-range"
-	ev.Rule(name, "ByteSizedCStr of 255,256,300 bytes (size byte cannot hold len+1), the same inside each string field of an SP800-155 event, TaggedDigest with an unknown algorithm (0, 0xD, 0x12, 0xFFFF) or a digest one byte short/long for each supported algorithm, the same inside a digest list and a TCG_PCR_EVENT2, an SP800-155 event larger than MaxGUIDHOBDataSize; oracle: Marshal returns an error; the in-range neighbours (254 bytes, exact digest size) are accepted; complete enumeration; distinct = case")
+	ev.Rule(name, "ByteSizedCStr of 255,256,300 bytes (size byte cannot hold len+1), the same inside each string field of an SP800-155 event, TaggedDigest with an unknown algorithm (0, 0xD, 0x12, 0xFFFF) or a digest one byte short/long for each supported algorithm, the same inside a digest list and a TCG_PCR_EVENT2, an SP800-155 event far larger than the largest GUID HOB payload (the exact boundary is el/sp-size-limit); oracle: Marshal returns an error; the in-range neighbours (254 bytes, exact digest size) are accepted; complete enumeration; distinct = case")
 	type tc struct {
 		label string
 		f     func() error
@@ -592,9 +604,9 @@ func TestElOutOfRange(t *testing.T) {
 			}, d == 0})
 		}
 	}
-	for _, n := range []int{oabi.MaxGUIDHOBDataSize - 200, oabi.MaxGUIDHOBDataSize + 1, 70000} {
+	for _, n := range []int{specMaxGUIDHOBData - 200, specMaxGUIDHOBData + 1, 70000} {
 		sp := &mSP{RL: make([]byte, n)}
-		cases = append(cases, tc{fmt.Sprintf("sp-size/%d", n), func() error { _, err := spToPkg(sp).MarshalToBytes(); return err }, n < oabi.MaxGUIDHOBDataSize})
+		cases = append(cases, tc{fmt.Sprintf("sp-size/%d", n), func() error { _, err := spToPkg(sp).MarshalToBytes(); return err }, n < specMaxGUIDHOBData})
 	}
 	for _, c := range cases {
 		err, pan := call(c.f)
@@ -616,8 +628,10 @@ func TestElOutOfRange(t *testing.T) {
 
 func TestElLogTruncation(t *testing.T) {
 	const name = "el/log-truncation"
-	ev.Rule(name, "generated logs (header + 1..4 events, all event-data kinds, 0..3 digests) cut at EVERY length k in [0,len]; oracle: k at an event boundary => accepted and equal to the model's first events (through all three readers); any other k => refused: a cut at a field boundary inside the last event that is accepted with the event dropped is the truncated-log violation; verdicts must not depend on the reader; all cases non-trivial; distinct = (cut class, field after the cut, verdict)")
+	ev.Rule(name, "generated logs (header + 1..4 events, all event-data kinds, 0..3 digests) cut at EVERY length k in [0,len]; oracle: k at an event boundary => accepted and equal to the model's first events (through all readers); any other k => refused: a cut at a field boundary inside the last event that is accepted with the event dropped is the truncated-log violation; verdicts must not depend on the reader (all five reader kinds); non-trivial = cut at an event or field boundary (mid-field cuts are the bulk and count as trivial); distinct = (cut class, field after the cut, verdict)")
 	c := logCodec()
+	wide = false
+	defer func() { wide = true }()
 	checks(ev.Scale(150, 800))
 	rapid.Check(t, func(t *rapid.T) {
 		l := genLog(t, 4)
@@ -701,7 +715,7 @@ func TestElLogTruncation(t *testing.T) {
 			if bad {
 				continue
 			}
-			ev.Case(name, true, cutClass+"/"+field+"/"+verdict, cutClass+"/"+verdict, func() any {
+			ev.Case(name, cutClass != "mid-field", cutClass+"/"+field+"/"+verdict, cutClass+"/"+verdict, func() any {
 				return map[string]any{"cut": k, "of": len(full), "class": cutClass, "before": field, "verdict": verdict}
 			})
 		}
